@@ -49,31 +49,46 @@ def run_check(prop, repo, tier='quick', timeout=1800):
     return p.returncode, p.stdout, time.time() - t0
 
 
+def _one(m):
+    lines = []
+    bad = 0
+    try:
+        d = make_copy(m)
+    except common.Machinery as ex:
+        return ['%-40s MACHINERY: %s' % (m['name'], ex)], 1
+    try:
+        for prop in m['breaks']:
+            rc, out, wall = run_check(prop, d)
+            ok = rc == 1 and ('VIOLATION property=%s' % prop) in out
+            clause = [l.strip()[:110] for l in out.splitlines() if 'failing clause' in l][:2]
+            lines.append('%-40s %s expected VIOLATION: %s (rc=%d, %.0fs) %s' % (m['name'], prop, 'caught' if ok else 'MISSED', rc, wall, clause))
+            if not ok:
+                bad += 1
+                lines.append(out[-800:])
+        for prop in m.get('must_pass', []):
+            rc, out, wall = run_check(prop, d)
+            ok = rc == 0
+            lines.append('%-40s %s expected quiet: %s (rc=%d, %.0fs)' % (m['name'], prop, 'quiet' if ok else 'FALSE ALARM', rc, wall))
+            if not ok:
+                bad += 1
+                lines.append(out[-800:])
+    finally:
+        shutil.rmtree(d, ignore_errors=True)
+    return lines, bad
+
+
 def main(names=None):
+    from concurrent.futures import ThreadPoolExecutor
     names = names or sys.argv[2:]
     ms = load()
     if names:
         ms = [m for m in ms if m['name'] in names or any(p in names for p in m['breaks'])]
     bad = 0
-    for m in ms:
-        d = make_copy(m)
-        try:
-            for prop in m['breaks']:
-                rc, out, wall = run_check(prop, d)
-                ok = rc == 1 and ('VIOLATION property=%s' % prop) in out
-                clause = [l.strip() for l in out.splitlines() if 'failing clause' in l][:2]
-                print('%-40s %s expected VIOLATION: %s (rc=%d, %.0fs) %s' % (m['name'], prop, 'caught' if ok else 'MISSED', rc, wall, clause))
-                if not ok:
-                    bad += 1
-                    print(out[-1500:])
-            for prop in m.get('must_pass', []):
-                rc, out, wall = run_check(prop, d)
-                ok = rc == 0
-                print('%-40s %s expected quiet: %s (rc=%d, %.0fs)' % (m['name'], prop, 'quiet' if ok else 'FALSE ALARM', rc, wall))
-                if not ok:
-                    bad += 1
-                    print(out[-1500:])
-        finally:
-            shutil.rmtree(d, ignore_errors=True)
+    with ThreadPoolExecutor(max_workers=int(os.environ.get('VERIF_SELFTEST_PAR', '3'))) as ex:
+        for lines, b in ex.map(_one, ms):
+            bad += b
+            for l in lines:
+                print(l)
+            sys.stdout.flush()
     print('selftest: %d mutant(s), %d problem(s)' % (len(ms), bad))
     return 0 if bad == 0 else 1
